@@ -626,7 +626,7 @@ Proof.
     destruct (seq_add a b) as [c|er] eqn:Ea; [|exact Hs].
     apply putS_ok; [exact Hs|]. eapply seq_inv_add; [eapply getS_ok; [exact Hs|exact E1]|eapply getS_ok; [exact Hs|exact E2]|exact Ea].
   - (* SCopy *) destruct (getS st s) as [x|er] eqn:E; [|exact Hs].
-    apply putS_ok; [exact Hs|eapply getS_ok; eassumption].
+    apply putS_ok; [exact Hs|]. exact (getS_ok _ _ _ Hs E).
   - (* SFromJson *) destruct Ha.
   - (* SElemChangeArg *) apply onS_ok; [exact Hs|]. intros q Hq.
     apply (on_seq_elem_pres seq_inv el_inv); [exact seq_inv_upd| |exact Hq].
@@ -839,7 +839,7 @@ Proof.
     apply putS_keys; [exact Hs|].
     eapply ks_add; [eapply getS_keys; [exact Hs|exact E1]|eapply getS_keys; [exact Hs|exact E2]|exact Ea].
   - (* SCopy *) destruct (getS st s) as [x|er] eqn:E; [|exact Hs].
-    apply putS_keys; [exact Hs|eapply getS_keys; eassumption].
+    apply putS_keys; [exact Hs|]. exact (getS_keys _ _ _ Hs E).
   - apply onS_keys; [exact Hs|]. intros q Hq. apply ks_on_seq_elem; exact Hq.
   - apply onS_keys; [exact Hs|]. intros q Hq. apply ks_on_seq_elem; exact Hq.
   - (* SElemAddBp *) destruct (getB st r) as [b|er]; [|exact Hs].
